@@ -18,7 +18,9 @@ def run(tier, seed):
                              ("calls", {"calls_focus": True, "max_funcs": 3}, "default", 1500 if q else 20000),
                              ("deep", {"depth": 4, "max_stmts": 8, "max_funcs": 3}, "default", 400 if q else 15000),
                              ("chain", {"calls_focus": True, "chain": True, "max_funcs": 4}, "calls", 300 if q else 8000),
-                             ("nested", {"calls_focus": True, "nested_defs": True, "max_funcs": 2}, "calls", 200 if q else 6000)],
+                             ("nested", {"calls_focus": True, "nested_defs": True, "max_funcs": 2}, "calls", 200 if q else 6000),
+                             ("consts", {"named_consts": True}, "default", 500 if q else 10000),
+                             ("terminating", {"terminating": True, "named_consts": True, "max_funcs": 2}, "inline-only", 300 if q else 8000)],
                 budget_s=75 if q else 1200, seed=seed)
     rep.trust("spec/ic10_machine.py (reference IC10 machine)", "spec/dialect.py (source executed by CPython against simulated devices)",
               "spec/ic10_ops.py", "spec/ic10_isa.py", "spec/enum_snapshot.json")
